@@ -71,12 +71,36 @@ def configOf (A B : Operand) : String :=
       let cross := ra.any fun r => (edges r).any fun e => rb.any fun r' => (edges r').any fun f =>
         properCross e.1 e.2 f.1 f.2
       let pre := if a = b then "boxeq-" else ""
-      if cross then pre ++ "overlap"
+      -- every vertex of one operand strictly in the other (what a vertex-only "within" test sees)
+      let allIn (vs : Contours) (O : Operand) := !vs.flatten.isEmpty && vs.flatten.all fun p => member O p && offBoundary O p
+      if cross then (if allIn rb A || allIn ra B then pre ++ "bridge" else pre ++ "overlap")
       else
         let aInB := match ra.flatten with | p :: _ => member B p | [] => false
         let bInA := match rb.flatten with | p :: _ => member A p | [] => false
-        if aInB || bInA then pre ++ "nested" else pre ++ "disjoint"
+        -- all vertices of one inside the other although the other has vertices inside it: it surrounds a hole
+        if (allIn rb A && ra.flatten.any fun p => member B p) || (allIn ra B && rb.flatten.any fun p => member A p) then pre ++ "surround"
+        else if aInB || bInA then pre ++ "nested" else pre ++ "disjoint"
   | _, _ => "empty"
+
+/-- ` pw <n> (<xbits> <ybits> <answer>)*` after the result: the library's `Point.Within(result)` answers -/
+def parseProbes : Tok → Option (List (P × WStatus))
+  | [] => some []
+  | "pw" :: _ :: t =>
+    let rec go : Nat → Tok → Option (List (P × WStatus))
+      | _, [] => some []
+      | 0, _ => none
+      | fuel + 1, x :: y :: s :: t => do
+        let x ← parseU64 x; let y ← parseU64 y
+        let p ← ptOfBits ⟨x, y⟩
+        let st ← match s with | "0" => some WStatus.outside | "1" => some .inside | "2" => some .onEdge | _ => none
+        let r ← go fuel t
+        pure ((p, st) :: r)
+      | _, _ => none
+    go (t.length + 1) t
+  | _ => none
+
+def showW : WStatus → String
+  | .outside => "Outside" | .inside => "Inside" | .onEdge => "OnEdge"
 
 def ringClosed (r : Ring) : Bool :=
   match r with
@@ -93,7 +117,7 @@ def judgeOp (cap : Nat) (op : Op) (A B : Operand) (rhs : Tok) : String :=
   | "ok" :: rt =>
     match parseOperand rt with
     | none => s!"DIFF {cls} unparsable-result"
-    | some (R, _) =>
+    | some (R, ptoks) =>
       let rrings : Contours := match R with | some (.poly rs) => rs | _ => []
       let core : ClipCore := { bool := fun _ _ _ => rrings.map List.dropLast, line := fun _ _ => [] }
       let m := api core A B op
@@ -123,7 +147,17 @@ def judgeOp (cap : Nat) (op : Op) (A B : Operand) (rhs : Tok) : String :=
         match bad with
         | some p => s!"SPEC {cls} pointset p={showP p} result={memberRes R p} A={member A p} B={member B p} samples={n}"
         | none =>
-          if m ≠ R then s!"DIFF {cls} model-differs"
+          -- "lies in the result" as answered by the LIBRARY (Point.Within on the result), at the
+          -- harness's probe points that keep twice the margin from every input edge (every result
+          -- edge lies within the margin of an input edge when the certificate is accepted)
+          let wbad := if ok then
+              (match parseProbes ptoks with
+               | some pr => (withinCheck (2 * mg) op A B pr).map fun (p, s) =>
+                   s!"SPEC {cls} library-Within-on-result p={showP p} Point.Within(result)={showW s} A={member A p} B={member B p} evenodd(result)={memberRes R p}"
+               | none => some s!"DIFF {cls} unparsable-within-probes")
+            else none
+          if let some w := wbad then w
+          else if m ≠ R then s!"DIFF {cls} model-differs"
           else if cert then s!"OK {cls}"
           else if ok then s!"OK {cls}-uncertified" else s!"OK {cls}-outside-quantifier"
   | _ => s!"DIFF {cls} bad-answer"
